@@ -34,7 +34,7 @@ Lemma knvec_transfer I e :
 Proof.
   unfold knvec, nvec, mulmv, vscale, v2r, in2r, m2r. cbn [normal perm].
   destruct (perm I (tc e)) as [[[[k11 k12] k13] [[k21 k22] k23]] [[k31 k32] k33]].
-  destruct (normal I (tf e)) as [[n1 n2] n3].
+  destruct (normal I (tg e)) as [[n1 n2] n3].
   unfold v2r. unfold dot, vx, vy, vz. cbn [fst snd].
   rewrite !Q2R_qadd, !Q2R_qmul, !Q2R_inject. reflexivity.
 Qed.
@@ -42,7 +42,7 @@ Qed.
 Lemma dvec_transfer I e : v2r (dvec Q qsub I e) = rdvec (in2r I) e.
 Proof.
   unfold dvec, vsub, v2r, in2r. cbn [fcen ccen].
-  destruct (fcen I (tf e)) as [[x1 x2] x3]. destruct (ccen I (tc e)) as [[y1 y2] y3].
+  destruct (fcen I (tg e)) as [[x1 x2] x3]. destruct (ccen I (tc e)) as [[y1 y2] y3].
   unfold v2r, vx, vy, vz. cbn [fst snd]. rewrite !Q2R_qsub. reflexivity.
 Qed.
 
